@@ -1343,12 +1343,10 @@ bn_digits_l_shift(bn_digit_t *a, size_t count, size_t bits) {
 
 	if (NULL == a || 0 == count || 0 == bits)
 		return;
-#if 0
-	if ((count * BN_DIGIT_BITS) <= bits) {
+	if ((count * BN_DIGIT_BITS) <= bits) { /* Everything is shifted out. */
 		bn_digits_assign_zero(a, count);
 		return;
 	}
-#endif
 	BN_PREFETCH_DIGITS(a, count);
 	crr_bits_cnt = (7 & bits);
 	if (0 == crr_bits_cnt || BN_DIGIT_BITS < bits) { /* memmove() optimization. */
@@ -1374,12 +1372,10 @@ bn_digits_r_shift(bn_digit_t *a, size_t count, size_t bits) {
 
 	if (NULL == a || 0 == count || 0 == bits)
 		return;
-#if 0
-	if ((count * BN_DIGIT_BITS) <= bits) {
+	if ((count * BN_DIGIT_BITS) <= bits) { /* Everything is shifted out. */
 		bn_digits_assign_zero(a, count);
 		return;
 	}
-#endif
 	BN_PREFETCH_DIGITS(a, count);
 	crr_bits_cnt = (7 & bits);
 	if (0 == crr_bits_cnt || BN_DIGIT_BITS < bits) { /* memmove() optimization. */
